@@ -16,6 +16,11 @@ source the parts of its *shape* that the model and the theorems of `Props/C16.le
                `self._h5group.create_dataset`, `np.array`, `grp.move` ...) and every access to a named HDF5 object
                (`self._h5group.group['data']`, `del grp['data']`) in source order: which helper stores the data,
                where the dataset is looked up, in which order conversions and writes happen
+  storage      (Class.method, [normalised statement])   the read path every DataFrame read goes through, statement by
+               statement (compound statements as their header line, bodies in source order, docstrings and comments
+               dropped): DataSet.__getitem__, DataSet._read_data, H5DataSet.read_data, H5DataSet._convert_string_cols.
+               `Pure/FrameBytes.lean` models exactly these (select from the dataset, then convert the text fields of a
+               single row / of every row / of a one-field selection); `C16_read_path_as_modelled` pins them.
   `Props/C16.lean` proves both tables equal to the tables the model was written against (`Frame.Shape`), so an edit
   of a guard (`not index` for `index is None`), a reordered check, a conversion moved behind a write, or a different
   storage helper breaks `lake build` on a named theorem and the check goes looking for a failing input.
@@ -133,6 +138,70 @@ def _calls(fn):
     return [c for (_, _, c) in found]
 
 
+STORAGE = [("nixio/data_set.py", "DataSet", ["__getitem__", "_read_data"]),
+           ("nixio/hdf5/h5dataset.py", "H5DataSet", ["read_data", "_convert_string_cols"])]
+
+
+def _statements(fn):
+    """the statements of a function in source order: simple statements as normalised source, compound statements as
+    their header followed by their bodies"""
+    out = []
+
+    def visit(stmts):
+        for st in stmts:
+            if isinstance(st, ast.Expr) and isinstance(st.value, ast.Constant) and isinstance(st.value.value, str):
+                continue                                    # docstring
+            if isinstance(st, ast.If):
+                out.append("if %s:" % ast.unparse(st.test))
+                visit(st.body)
+                if st.orelse:
+                    out.append("else:")
+                    visit(st.orelse)
+            elif isinstance(st, (ast.For, ast.While)):
+                out.append(("for %s in %s:" % (ast.unparse(st.target), ast.unparse(st.iter)))
+                           if isinstance(st, ast.For) else "while %s:" % ast.unparse(st.test))
+                visit(st.body)
+                if st.orelse:
+                    out.append("else:")
+                    visit(st.orelse)
+            elif isinstance(st, ast.Try):
+                out.append("try:")
+                visit(st.body)
+                for h in st.handlers:
+                    out.append("except %s%s:" % (ast.unparse(h.type) if h.type else "",
+                                                 " as " + h.name if h.name else ""))
+                    visit(h.body)
+                if st.orelse:
+                    out.append("else:")
+                    visit(st.orelse)
+                if st.finalbody:
+                    out.append("finally:")
+                    visit(st.finalbody)
+            elif isinstance(st, ast.With):
+                out.append("with %s:" % ", ".join(ast.unparse(i) for i in st.items))
+                visit(st.body)
+            elif isinstance(st, (ast.FunctionDef, ast.AsyncFunctionDef)):
+                out.append("def %s(%s):" % (st.name, ast.unparse(st.args)))
+                visit(st.body)
+            else:
+                out.append(ast.unparse(st))
+    out.append("def %s(%s):" % (fn.name, ast.unparse(fn.args)))
+    visit(fn.body)
+    return out
+
+
+def _storage(repo):
+    rows = []
+    for rel, cname, names in STORAGE:
+        c = _class(_parse(repo, rel), cname, rel)
+        fns = {n.name: n for n in c.body if isinstance(n, ast.FunctionDef)}
+        for nm in names:
+            if nm not in fns:
+                raise ExtractError("%s.%s not found in %s" % (cname, nm, rel))
+            rows.append(("%s.%s" % (cname, nm), _statements(fns[nm])))
+    return rows
+
+
 def _lean_pairs(pairs):
     return "[" + ", ".join("(%s, %s)" % (lean_str(a), lean_str(b)) for a, b in pairs) + "]"
 
@@ -228,6 +297,10 @@ def extract(repo):
               "def calls : List (String × List String) := ["]
     lines.append(",\n".join("  (%s, [%s])" % (lean_str(m), ", ".join(lean_str(c) for c in _calls(fn)))
                             for m, fn in shape))
+    lines += ["]", "", "/-- (Class.method, [statement]): the read path of every DataFrame read, statement by statement -/",
+              "def storage : List (String × List String) := ["]
+    lines.append(",\n".join("  (%s, [%s])" % (lean_str(m), ", ".join(lean_str(c) for c in sts))
+                            for m, sts in _storage(repo)))
     lines += ["]", "", "end Nix.Generated.FrameShape", ""]
     return {TARGET: "\n".join(lines)}
 
@@ -239,14 +312,17 @@ def sync_modelled(repo="/repo", verif=None):
     verif = verif or os.path.dirname(os.path.dirname(os.path.dirname(os.path.abspath(__file__))))
     t = extract(repo)[TARGET]
     g = t[t.index("def guards"):t.index("/-- (method, [callee])")]
-    c = t[t.index("def calls"):t.index("end Nix.Generated")]
+    c = t[t.index("def calls"):t.index("/-- (Class.method, [statement])")]
+    st = t[t.index("def storage"):t.index("end Nix.Generated")]
     p = os.path.join(verif, "lean", "NixModel", "Pure", "FrameShape.lean")
     with open(p, encoding="utf-8") as f:
         s = f.read()
     i, j = s.index("def guards"), s.index("/-- attribute-chain calls")
     s = s[:i] + g + s[j:]
-    i, j = s.index("def calls"), s.index("end Nix.Frame.Shape")
+    i, j = s.index("def calls"), s.index("/-- the read path")
     s = s[:i] + c + s[j:]
+    i, j = s.index("def storage"), s.index("end Nix.Frame.Shape")
+    s = s[:i] + st + s[j:]
     with open(p, "w", encoding="utf-8") as f:
         f.write(s)
     return p
